@@ -29,6 +29,10 @@ FAMILIES = {
     "la_nested_plus": ("(?=(a+)+b)a", lambda n: "a" * n, True),
     "la_star_star": ("(?=(a*)*b)", lambda n: "a" * n, True),
     "la_in_loop": ("((?=(a+)+b)a)*c", lambda n: "a" * n, True),
+    # a cheap lookaround executed at every step of a catastrophically backtracking main loop
+    "la_cheap_in_cat_loop": ("(?:(?=a)a|a)*b", lambda n: "a" * n, True),
+    "lb_cheap_in_cat_loop": ("(?:a(?<=a)|a)*b", lambda n: "a" * n, True),
+    "neg_la_cheap_in_cat_loop": ("((?!b)a|a)+c", lambda n: "a" * n, True),
     "neg_la": ("(?!(a+)+b)a{2}z", lambda n: "a" * n, True),
     "lb_nested_plus": ("(?<=(a+)+b)c", lambda n: "a" * n + "c", True),
     "lb_in_loop": ("(a(?<=(a|aa)+b))*c", lambda n: "a" * n, True),
@@ -148,7 +152,7 @@ def _install_knobs():
         return _patched
     from microjs.regex import vm as rvm
     cls = rvm.RegexVM
-    state = {"knobs": None, "lost": False, "act": {"main": 0, "la": 0, "lb": 0}}
+    state = {"knobs": None, "lost": False, "act": {"main": 0, "la": 0, "lb": 0}, "subs": {"la": 0, "lb": 0}}
     orig_init = cls.__init__
 
     def init(self, *a, **k):
@@ -171,6 +175,10 @@ def _install_knobs():
         def wrapper(self, *a, **k):
             act = state["act"]
             act[key] += 1
+            if key == "main":
+                state["subs"] = {"la": 0, "lb": 0}      # sub-matcher activations of this attempt
+            else:
+                state["subs"][key] = state["subs"].get(key, 0) + 1
             grow = state.get("grow")
             if grow:
                 grow(act)
@@ -201,6 +209,7 @@ def execute(case):
     st = _install_knobs()["state"]
     st["knobs"] = case["knobs"]
     st["act"] = {"main": 0, "la": 0, "lb": 0}
+    st["subs"] = {"la": 0, "lb": 0}
     wd = case["world"]
     W.reset(tick=wd["tick"], epoch=wd["epoch"], seed=case.get("seed", 0))
     S = W.S
@@ -230,9 +239,14 @@ def execute(case):
     per_act = BOUND_C * (case["knobs"]["step_limit"] + 2) + BOUND_PER_ACT
     max_main = 6 * (n + 2) + 60
 
+    S_lim = case["knobs"]["step_limit"]
+
     def grow(act):
-        if act["main"] > max_main:
-            W.set_cap(S.work)  # too many attempts: stop now
+        subs = st["subs"]
+        if act["main"] > max_main or subs["la"] > S_lim + 2 or subs["lb"] > (S_lim + 2) * (n + 2):
+            # too many attempts, or one attempt started more sub-matchers than it has steps:
+            # its own step budget is not being enforced -- stop now
+            W.set_cap(S.work)
             return
         W.set_cap(start + 2 * (BOUND_C0 + 60 * n + per_act * (act["main"] + act["la"] + act["lb"] + 1)))
     st["grow"] = None
@@ -267,7 +281,7 @@ def judge(case, r):
     timed = case.get("T_work") is not None
     n = r["n"]
     if r["outcome"] == "cap":
-        v.append({"clause": "C10.bound", "detail": "stopped by the simulator after %d work units: more than twice the budget of %d matcher activations with step_limit=%d on %d characters (or more than %d top-level attempts)" % (
+        v.append({"clause": "C10.bound", "detail": "stopped by the simulator after %d work units: more than twice the budget of %d matcher activations with step_limit=%d on %d characters (or more than %d top-level attempts, or one attempt started more sub-matchers than it has steps)" % (
             r["work"], sum(r["act"].values()), case["knobs"]["step_limit"], n, 6 * (n + 2) + 60)})
         return v
     if r["outcome"] == "host_exc":
